@@ -1,7 +1,8 @@
 // Correspondence harness for property C18 (the 20 lint analyzers of pkg/dbc/analysis/passes).
 //
 // usage: verif_lint <seed> <nfiles> <repo-root> [cli-sample]     generated files
-//        verif_lint replay <hex of a DBC text>                   one given file
+//
+//	verif_lint replay <hex of a DBC text>                   one given file
 //
 // For every generated DBC text the harness parses it with the real parser and prints one block
 //
@@ -230,10 +231,10 @@ const upper = "ABCDEFGHIJKLMNOPQRSTUVWXYZ"
 const lower = "abcdefghijklmnopqrstuvwxyz"
 const digits = "0123456789"
 
-func (g *gen) pick(s string) byte          { return s[g.r.Intn(len(s))] }
-func (g *gen) choose(xs ...string) string  { return xs[g.r.Intn(len(xs))] }
-func (g *gen) chance(p float64) bool       { return g.r.Float64() < p }
-func (g *gen) between(lo, hi int) int      { return lo + g.r.Intn(hi-lo+1) }
+func (g *gen) pick(s string) byte         { return s[g.r.Intn(len(s))] }
+func (g *gen) choose(xs ...string) string { return xs[g.r.Intn(len(xs))] }
+func (g *gen) chance(p float64) bool      { return g.r.Float64() < p }
+func (g *gen) between(lo, hi int) int     { return lo + g.r.Intn(hi-lo+1) }
 
 // camel returns a CamelCase identifier that starts with none of Is/Has/Reserved.
 func (g *gen) camel() string {
@@ -273,12 +274,12 @@ func (g *gen) nonCamel() string {
 }
 
 type sigPlan struct {
-	name, mux           string
-	start, size         uint64
-	be, signed          bool
-	factor, offset      string
-	min, max, unit      string
-	recv                []string
+	name, mux      string
+	start, size    uint64
+	be, signed     bool
+	factor, offset string
+	min, max, unit string
+	recv           []string
 }
 
 type msgPlan struct {
@@ -296,31 +297,32 @@ type chunk struct {
 
 // knobs: how many violations of each kind to seed (0 everywhere = a clean file)
 type knobs struct {
-	boolNoPrefix, boolNoPrefixVal                                          int
-	outOfOrder                                                             int
-	badIntSig, badIntEnv, badIntAttrInt, badIntAttrHex, badIntAttrFloat    int
-	crlf                                                                   bool
-	badMsgName                                                             int
-	muxMany, muxSigned, muxNoSwitch, muxExceeds                            int
-	newSymbols                                                             int
-	undeclTx, undeclRx, undeclAcc, undeclTxBu                              int
-	reserved                                                               int
-	missingBS, missingBU                                                   bool
-	startOut                                                               int
-	badSigName                                                             int
-	dupVersion, dupNS, dupBS, dupBU                                        int
-	nonSI                                                                  int
-	dupMsgID                                                               int
-	dupNode                                                                int
-	dupSig                                                                 int
-	badSuffix                                                              int
-	badValDesc                                                             int
-	versionText                                                            bool
-	pseudo                                                                 int // pseudo messages (not violations of the unique*/bounds rules)
-	combo                                                                  int // one signal violating many rules at once
-	unknownFirst                                                           bool
-	topLevelSignal                                                         bool
-	big                                                                    bool
+	boolNoPrefix, boolNoPrefixVal                                       int
+	outOfOrder                                                          int
+	badIntSig, badIntEnv, badIntAttrInt, badIntAttrHex, badIntAttrFloat int
+	crlf                                                                bool
+	crlfLayout                                                          int // 0 = random
+	badMsgName                                                          int
+	muxMany, muxSigned, muxNoSwitch, muxExceeds                         int
+	newSymbols                                                          int
+	undeclTx, undeclRx, undeclAcc, undeclTxBu                           int
+	reserved                                                            int
+	missingBS, missingBU                                                bool
+	startOut                                                            int
+	badSigName                                                          int
+	dupVersion, dupNS, dupBS, dupBU                                     int
+	nonSI                                                               int
+	dupMsgID                                                            int
+	dupNode                                                             int
+	dupSig                                                              int
+	badSuffix                                                           int
+	badValDesc                                                          int
+	versionText                                                         bool
+	pseudo                                                              int // pseudo messages (not violations of the unique*/bounds rules)
+	combo                                                               int // one signal violating many rules at once
+	unknownFirst                                                        bool
+	topLevelSignal                                                      bool
+	big                                                                 bool
 	// near-collisions: keys that are almost, but not, equal (must NOT be confused by the passes)
 	nearMsgID, nearNode, sameSigAcross, nearVal, nearRef, muxEdge, startEdge, nearUnit int
 }
@@ -374,14 +376,14 @@ func (g *gen) interval(bad bool) (string, string) {
 }
 
 type builder struct {
-	g        *gen
-	k        knobs
-	nodes    []string
-	used     map[string]bool
-	msgs     []*msgPlan
-	usedIDs  map[uint32]bool
-	valFor   []string // "id name" pairs that must get a VAL_
-	chunks   []chunk
+	g       *gen
+	k       knobs
+	nodes   []string
+	used    map[string]bool
+	msgs    []*msgPlan
+	usedIDs map[uint32]bool
+	valFor  []string // "id name" pairs that must get a VAL_
+	chunks  []chunk
 }
 
 func (b *builder) uniq(mk func() string) string {
@@ -1244,16 +1246,76 @@ func (g *gen) build(k knobs) string {
 		text = strings.TrimRight(text, "\n")
 	}
 	if k.crlf {
-		if g.chance(0.7) {
-			text = strings.ReplaceAll(text, "\n", "\r\n")
-		} else { // a single CR LF somewhere
-			i := strings.Index(text, "\n")
-			if i >= 0 {
-				text = text[:i] + "\r" + text[i:]
-			}
+		layout := k.crlfLayout
+		if layout == 0 {
+			layout = g.between(1, nCrlfLayouts)
 		}
+		text = applyLineEndings(g, text, layout)
 	}
 	return text
+}
+
+// line-ending layouts of a file that was assembled with LF only
+const nCrlfLayouts = 9
+
+func applyLineEndings(g *gen, text string, layout int) string {
+	var breaks []int
+	for i := 0; i < len(text); i++ {
+		if text[i] == '\n' {
+			breaks = append(breaks, i)
+		}
+	}
+	if len(breaks) == 0 {
+		return text + "\r\n"
+	}
+	insertCR := func(t string, at []int) string { // CR before the line feeds at the given offsets (ascending)
+		var sb strings.Builder
+		prev := 0
+		for _, i := range at {
+			sb.WriteString(t[prev:i])
+			sb.WriteString("\r")
+			prev = i
+		}
+		sb.WriteString(t[prev:])
+		return sb.String()
+	}
+	switch layout {
+	case 1: // uniform CRLF
+		return strings.ReplaceAll(text, "\n", "\r\n")
+	case 2: // first break CRLF, LF afterwards
+		return insertCR(text, breaks[:1])
+	case 3: // first break LF, one CRLF later
+		if len(breaks) > 1 {
+			return insertCR(text, []int{breaks[1+g.r.Intn(len(breaks)-1)]})
+		}
+		return text + "\r\n"
+	case 4: // CRLF only at the last line break
+		return insertCR(text, breaks[len(breaks)-1:])
+	case 5: // first break LF, every later one CRLF
+		return insertCR(text, breaks[1:])
+	case 6: // random mixture
+		var at []int
+		for _, i := range breaks {
+			if g.chance(0.5) {
+				at = append(at, i)
+			}
+		}
+		return insertCR(text, at)
+	case 7: // CR alone (never followed by LF): no CRLF in the file
+		out := strings.Replace(text, ": ", ":\r ", 1+g.r.Intn(3))
+		if g.chance(0.5) {
+			out = strings.TrimRight(out, "\n") + "\r"
+		}
+		return out
+	case 8: // LF CR (the wrong way round), plus sometimes a real CRLF at the very end
+		out := strings.Replace(text, "\n", "\n\r", 1)
+		if g.chance(0.3) {
+			out = strings.TrimRight(out, "\n") + "\r\n"
+		}
+		return out
+	default: // CRLF inside a string only
+		return text + "CM_ \"first line\r\nsecond line\";\n"
+	}
 }
 
 // one knob per rule (and sub-case), used for "rule x {1, many}" and for the pairwise interactions
@@ -1368,6 +1430,8 @@ func (k *knobs) set(name string, n int) {
 }
 
 var degenerate = []string{
+	"VERSION \"\"\nBS_:\r\nBU_: A\n", "VERSION \"\"\r\nBS_:\nBU_: A\n", "BS_:\rBU_: A\n", "BS_:\nBU_: A\r\n", "BS_:\nBU_: A\r",
+	"BS_:\nBU_: A\nCM_ \"a\r\nb\";\n", "BS_:\n\rBU_: A\n", "\nBS_:\r\n", "BS_:\n\n\n\r\n", "\r", "\n\r", "\r\r\n", "BS_:\nBU_: A\r\r\n",
 	"", "\n", "\n\n\n", "   ", " \n \n", "\r\n", "\r\n\r\n", "\t\n",
 	"FOO_ 1 2 3\n", "FOO_ x\nBAR_ y z\n", "UNKNOWN\n", "X\nY\nZ", "FOO_ 1 2 3\r\nBAR_ 4\r\n",
 	"VERSION \"\"\n", "VERSION \"\"\n\nNS_ :\n\nBS_:\n\nBU_:\n", "VERSION \"\"\r\nNS_ :\r\nBS_:\r\nBU_: A B\r\n",
@@ -1463,10 +1527,10 @@ func (g *gen) perturb(f *dbc.File) {
 	}
 }
 
-func (g *gen) choose64(xs ...uint64) uint64   { return xs[g.r.Intn(len(xs))] }
-func (g *gen) choose32(xs ...uint32) uint32   { return xs[g.r.Intn(len(xs))] }
-func (g *gen) chooseI(xs ...int64) int64      { return xs[g.r.Intn(len(xs))] }
-func (g *gen) chooseF(xs ...float64) float64  { return xs[g.r.Intn(len(xs))] }
+func (g *gen) choose64(xs ...uint64) uint64  { return xs[g.r.Intn(len(xs))] }
+func (g *gen) choose32(xs ...uint32) uint32  { return xs[g.r.Intn(len(xs))] }
+func (g *gen) chooseI(xs ...int64) int64     { return xs[g.r.Intn(len(xs))] }
+func (g *gen) chooseF(xs ...float64) float64 { return xs[g.r.Intn(len(xs))] }
 
 func (g *gen) perturbValues(vs []dbc.ValueDescriptionDef) {
 	for i := range vs {
@@ -1630,6 +1694,9 @@ func main() {
 			k.set(name, cnt)
 			emit("rule:"+name, g.build(k), nil)
 		}
+	}
+	for layout := 1; layout <= nCrlfLayouts; layout++ { // every line-ending layout on an otherwise clean file
+		emit("rule:crlf", g.build(knobs{crlf: true, crlfLayout: layout}), nil)
 	}
 	// 4. pairwise interactions, random files, synthetic files until nfiles
 	for n < nfiles {
